@@ -966,6 +966,9 @@ def run(ctx):
     ctx.attempt(r1911, ctx)
     ctx.rule("R-19.12", "_modify_input recognises a requested entry by membership in the settings, not by the truth value of the requested value", floor=1)
     ctx.attempt(r1912, ctx)
+    ctx.rule("R-19.13", "a flag passed positionally to a codec function lands on a flag parameter (no bool literal on a non-flag parameter while a later flag keeps its default); today every such flag is passed by keyword - the positive control exercises the rule", floor=0)
+    from .shared import positional_literal_kind
+    ctx.attempt(positional_literal_kind, ctx, "R-19.13", [CP2K, LAMMPS, GROMACS, ENGBASE, ENGPARTS, ASE, TURTLE], ": a frame extracted into an existing file is appended instead of overwriting it, and every reader of that file gets the frame extracted earlier")
     from .shared import role_agreement, handed_out_buffers
     from .c13 import readers
     for rf in readers(ctx.tree):
@@ -977,6 +980,8 @@ def run(ctx):
 
 
 VARIANTS = [
+    B("c19-append-flag-slipped-to-step", CP2K, "                write_xyz_trajectory(\n                    out_file, xyz, vel, names, box, append=False\n                )", "                write_xyz_trajectory(out_file, xyz, vel, names, box, False)", "R-19.13", control=True, why="seeded C19_i"),
+    K("c19-keep-append-flag-positional-in-place", CP2K, "                write_xyz_trajectory(\n                    out_file, xyz, vel, names, box, append=False\n                )", "                write_xyz_trajectory(out_file, xyz, vel, names, box, None, False)"),
     B("c19-requested-value-by-truthiness", ENGBASE, "                        if keyword_strip in settings:\n                            to_write = f\"{keyword} {settings[keyword_strip]}\\n\"", "                        new_value = settings.get(keyword_strip)\n                        if new_value:\n                            to_write = f\"{keyword} {new_value}\\n\"", "R-19.12", control=True, why="seeded C19_h"),
     K("c19-keep-requested-value-is-not-none", ENGBASE, "                        if keyword_strip in settings:\n                            to_write = f\"{keyword} {settings[keyword_strip]}\\n\"", "                        if keyword_strip in settings.keys():\n                            new_value = settings[keyword_strip]\n                            to_write = f\"{keyword} {new_value}\\n\""),
     B("c19-cp2k-section-lines-deduplicated", CP2K, "        node.data = list(new_data)\n    else:\n        node.data = list(data)", "    else:\n        new_data = list(data)\n    node.data = list(dict.fromkeys(new_data))", "R-19.11", control=True, why="seeded C19_g"),
